@@ -189,6 +189,8 @@ def scenarios(tier, seed):
                 ('constant nested int assigned none', 'g\n  k int = {k}\n    !constant\ng.k = none'), ('constant str assigned none', 's str = x\n  !constant\ns = none'),
                 ('modification of an undefined node', 'a = {x} m'), ('unit on a boolean', 'b bool = true m'), ('bool assigned a number', 'b bool = {k}')]
     accepted = [('declaration then typed value of the same type in another prefix', 'a float m\na float = {x} km'), ('declaration then value', 'a float m\na = {x}'), ('declaration then value in another prefix', 'a float m\na = {x} cm'),
+                ('declared str given the empty text', 'a str\na = ""'), ('declared str given the empty single-quoted text', "a str\na = ''"), ('defined str emptied', 'a str = "abc"\na = ""'),
+                ('declared nested str given the empty text', 'g\n  a str\n  a = ""'), ('declared int given zero', 'k int\nk = 0'), ('declared float given zero in another prefix', 'a float m\na = 0 km'), ('declared bool given false', 'b bool\nb = false'),
                 ('constant never modified', 'a float = {x} m\n  !constant\nb float = {y} m'), ('typed modification of the same type', 'a float = {x} m\na float = {y} m')]
     S.append(Scenario('arrays', ARR_SRC, {}, consts={'cases': ARRAYS}, preamble=PRE, what='array nodes assigned more than once (concrete)', samples=1))
     S.append(Scenario('reject', REJECT_SRC, {'x': 'real', 'y': 'real', 'k': 'int'}, consts={'cases': rejected, 'accepted': accepted}, preamble=PRE,
